@@ -43,79 +43,10 @@ JOB_TIMEOUT = {"quick": 600, "thorough": 3600}
 
 KNOWN_CLONE_INTO = "clone_into:nonempty-dest:operand-fixup-walks-preexisting-blocks"
 KNOWN_HINT = "clone:name-hint-loses-second-numeric-suffix"
+KNOWN_SELF_USE = "clone_without_regions:operand-that-is-own-result-not-remapped"
 
 
-# ------------------------------------------------------------------------------------------------ raw walkers
-def collect(root):
-    """Own walker over the raw link fields: (ops, blocks, regions, values) in walk order."""
-    from xdsl.ir import Block, Operation
-    ops, blocks, regions, values = [], [], [], []
-
-    def v_op(op):
-        ops.append(op)
-        values.extend(op.results)
-        for r in op.regions:
-            v_region(r)
-
-    def v_block(b):
-        blocks.append(b)
-        values.extend(b._args)
-        o = b._first_op
-        while o is not None:
-            v_op(o)
-            o = o._next_op
-
-    def v_region(r):
-        regions.append(r)
-        b = r._first_block
-        while b is not None:
-            v_block(b)
-            b = b._next_block
-
-    if isinstance(root, Operation):
-        v_op(root)
-    elif isinstance(root, Block):
-        v_block(root)
-    else:
-        v_region(root)
-    return ops, blocks, regions, values
-
-
-def region_blocks(r):
-    out = []
-    b = r._first_block
-    while b is not None:
-        out.append(b)
-        b = b._next_block
-    return out
-
-
-def block_ops(b):
-    out = []
-    o = b._first_op
-    while o is not None:
-        out.append(o)
-        o = o._next_op
-    return out
-
-
-def top_root(node):
-    from xdsl.ir import Block, Operation
-    cur = node
-    while True:
-        p = cur.parent
-        if p is None:
-            return cur
-        cur = p
-
-
-def is_inside(node, anc):
-    cur = node
-    while cur is not None:
-        if cur is anc:
-            return True
-        cur = cur.parent
-    return False
+from xv.genir import block_ops, collect, is_inside, region_blocks  # noqa: E402  (raw-field walkers)
 
 
 # ------------------------------------------------------------------------------------------------ canon transforms
@@ -642,6 +573,15 @@ def run_clone_case(case, C, sets, soft):
         key = f"{entry}:copy-not-equivalent"
         if entry == "region.clone_into" and model_match:
             key = KNOWN_CLONE_INTO
+        if entry == "op.clone_without_regions" and operands_flag:
+            # model of the known wrong behaviour: an operand that is one of the op's OWN results (graph-region self
+            # use) is looked up in the mapper before the results are registered, so it keeps pointing at the source
+            own = {i: id(r) for i, r in enumerate(src.results)}
+
+            def self_tok(t):
+                return ("ext", own[t[1]]) if t[0] == "v" and t[1] in own else t
+            if own and got == expected[:2] + (tuple(self_tok(t) for t in expected[2]),) + expected[3:]:
+                key = KNOWN_SELF_USE
         raise Violation(key, f"{desc}: canonical form of the copy differs from the source: {first_diff(expected, got)}",
                         {"model_match": model_match})
     bump("copies_equivalent")
@@ -886,7 +826,7 @@ def all_passes():
     return out
 
 
-def run_apply_case(ctx, module, pname, pinst, fail_seed, C, text_for_witness):
+def run_apply_case(ctx, module, pname, pinst, fail_seed, C, text_for_witness, out=None):
     """apply_to_clone normally, then with an injected failure. Raises Violation."""
     from xv.canon import canon_ir
     from xv.irsan import Broken, check_tree
@@ -973,6 +913,8 @@ def run_apply_case(ctx, module, pname, pinst, fail_seed, C, text_for_witness):
                                         f"pass {pname}: an op of the result uses a value of the original",
                                         {"pass": pname, "module": text_for_witness})
             bump("results_checked_disjoint")
+            if mode == "normal" and out is not None:
+                out["result"] = res
     return mutated
 
 
@@ -980,7 +922,7 @@ def run_apply_case(ctx, module, pname, pinst, fail_seed, C, text_for_witness):
 def plan(tier, seed):
     jobs = []
     if tier == "quick":
-        n_clone, per, n_pass, pper = 24, 140, 16, 140
+        n_clone, per, n_pass, pper = 24, 140, 12, 260
     else:
         n_clone, per, n_pass, pper = 64, 1000, 48, 1600
     for i in range(n_clone):
@@ -1047,47 +989,72 @@ def work(job):
         C["clone_cases"] = len(cases)
     elif kind in ("pass", "pass1"):
         _install_failpoints()
-        from xdsl.parser import Parser
+        import shlex
+        from collections import OrderedDict
+        from xdsl.passes import PassPipeline
+        from xdsl.transforms import get_all_passes
         from xv import corpus
         passes = all_passes()
+        allp = get_all_passes()
         C["passes_default_constructible"] = len(passes)
         rng = random.Random(job["seed"])
-        if kind == "pass1":
-            todo = [(job["text"], job["pass"], job["fail_seed"])]
-        else:
-            chunks = corpus.shard(corpus.chunks(), job["shard"], job["nshards"])
-            texts = []
-            for rel, i, text in chunks:
-                if len(text) < 20000:
-                    texts.append(text)
-            rng.shuffle(texts)
-            todo = []
-            # generated modules (verifiable) as text-free inputs: marked by a spec
-            ngen = max(4, job["n"] // 12)
-            mods = []
-            for text in texts:
-                if len(mods) >= max(6, job["n"] // 10):
-                    break
-                got = corpus.parse_verified(text)
-                if got is None:
-                    C["corpus_chunks_not_verifying"] = C.get("corpus_chunks_not_verifying", 0) + 1
+
+        def pipelines_of(full_text):
+            out = []
+            for rl in corpus.run_lines(full_text):
+                if "xdsl-opt" not in rl:
                     continue
-                mods.append(("corpus", text))
+                try:
+                    toks = shlex.split(rl.split("|")[0])
+                except ValueError:
+                    continue
+                pipe = None
+                for i, t in enumerate(toks):
+                    if t in ("-p", "--passes") and i + 1 < len(toks):
+                        pipe = toks[i + 1]
+                    elif t.startswith("-p=") or t.startswith("--passes="):
+                        pipe = t.split("=", 1)[1]
+                if pipe and pipe not in out:
+                    out.append(pipe)
+            return out
+
+        # todo items: (module descriptor, pipeline string | None, [pass names], fail seed)
+        todo = []
+        if kind == "pass1":
+            todo = [(tuple(job["module"]), job.get("pipeline"), job.get("passes", []), job["fail_seed"])]
+        else:
+            by_file = OrderedDict()
+            for rel, idx, text in corpus.chunks():
+                by_file.setdefault(rel, []).append(text)
+            files = corpus.shard(list(by_file.items()), job["shard"], job["nshards"])
+            rng.shuffle(files)
+            budget = job["n"]
+            ngen = max(4, job["n"] // 10)
             for _ in range(ngen):
                 spec = genir.gen_spec(rng, genir.Cfg(max_ops=rng.choice((8, 20, 35)), p_unregistered=0.1))
-                mods.append(("gen", spec))
-            C["modules_used"] = len(mods)
-            per_mod = max(1, job["n"] // max(1, len(mods)))
-            for m in mods:
-                for name, inst in rng.sample(passes, min(per_mod, len(passes))):
-                    todo.append((m, name, rng.randrange(1 << 30)))
+                names = ["canonicalize", "cse", "dce"] + [n for n, _ in rng.sample(passes, 3)]
+                todo.append((("gen", spec), None, names, rng.randrange(1 << 30)))
+            for rel, texts in files:
+                if len(todo) >= budget:
+                    break
+                try:
+                    full = open(corpus.REPO + "/" + rel, encoding="utf-8").read()
+                except OSError:
+                    continue
+                pipes = pipelines_of(full)
+                for text in texts[:4]:
+                    if len(text) > 20000:
+                        continue
+                    for pipe in pipes[:2]:
+                        todo.append((("corpus", text), pipe, [], rng.randrange(1 << 30)))
+                    names = [n for n, _ in rng.sample(passes, 2)] + [rng.choice(["canonicalize", "cse", "dce"])]
+                    todo.append((("corpus", text), None, names, rng.randrange(1 << 30)))
         pmap = dict(passes)
-        for m, pname, fseed in todo:
-            if isinstance(m, str):
-                m = ("corpus", m)
+        for m, pipe, names, fseed in todo:
             if m[0] == "corpus":
                 got = corpus.parse_verified(m[1])
                 if got is None:
+                    C["corpus_chunks_not_verifying"] = C.get("corpus_chunks_not_verifying", 0) + 1
                     continue
                 ctx, module = got
                 wtext = m[1][:4000]
@@ -1095,22 +1062,45 @@ def work(job):
                 ctx = corpus.new_ctx()
                 module = genir.build(m[1]).root
                 wtext = genir.spec_text(m[1])
-            res["evaluations"] += 1
-            try:
-                mutated = run_apply_case(ctx, module, pname, pmap[pname], fseed, C, wtext)
-            except Violation as v:
-                w = dict(v.detail or {})
-                if m[0] == "corpus":
-                    w["replay_job"] = {"kind": "pass1", "text": m[1], "pass": pname, "fail_seed": fseed, "seed": 0}
-                viol(v, w)
-                continue
-            sets.setdefault("passes_applied", set()).add(pname)
-            if mutated:
-                sets.setdefault("passes_that_mutated_their_clone", set()).add(pname)
-                C["nontrivial_cases"] = C.get("nontrivial_cases", 0) + 1
-                res["nontrivial"].append(shash((wtext, pname)))
-                if not res["samples"]:
-                    res["samples"].append({"pass": pname, "module": wtext[:800]})
+            C["modules_used"] = C.get("modules_used", 0) + 1
+            chain = []
+            if pipe is not None:
+                try:
+                    chain = [(p.name, p) for p in PassPipeline.parse_spec(allp, pipe).passes]
+                except Exception:  # noqa: BLE001 - option syntax this tree does not accept
+                    C["pipelines_unparseable"] = C.get("pipelines_unparseable", 0) + 1
+                    continue
+                C["corpus_pipelines"] = C.get("corpus_pipelines", 0) + 1
+            else:
+                chain = None
+            items = chain if chain is not None else [(n, pmap[n]) for n in names]
+            cur_ctx, cur_mod = ctx, module
+            for k, (pname, pinst) in enumerate(items):
+                res["evaluations"] += 1
+                out = {}
+                try:
+                    mutated = run_apply_case(cur_ctx, cur_mod, pname, pinst, fseed + k, C, wtext, out)
+                except Violation as v:
+                    w = dict(v.detail or {})
+                    w["pipeline"] = pipe
+                    w["position_in_pipeline"] = k
+                    if m[0] == "corpus":
+                        w["replay_job"] = {"kind": "pass1", "module": list(m), "pipeline": pipe, "passes": names,
+                                           "fail_seed": fseed, "seed": 0}
+                    viol(v, w)
+                    break
+                sets.setdefault("passes_applied", set()).add(pname)
+                if mutated:
+                    sets.setdefault("passes_that_mutated_their_clone", set()).add(pname)
+                    C["nontrivial_cases"] = C.get("nontrivial_cases", 0) + 1
+                    res["nontrivial"].append(shash((wtext, pipe, k, pname)))
+                    if not res["samples"]:
+                        res["samples"].append({"pass": pname, "pipeline": pipe, "module": wtext[:800]})
+                if chain is not None:
+                    # pipelines continue on the RESULT of apply_to_clone (which becomes the next original)
+                    if out.get("result") is None:
+                        break
+                    cur_ctx, cur_mod = out["result"]
     else:
         raise ValueError(kind)
     res["sets"] = {k: sorted(v) for k, v in sets.items()}
